@@ -443,6 +443,74 @@ class _Norm(ast.NodeTransformer):
     def __init__(self):
         self.fn_stack = []
         self._temps = {}
+        self.module = None
+
+    def visit_Module(self, node):
+        self.module = node
+        return self.generic_visit(node)
+
+    # N30: a lambda parameter with a default that is a name which cannot change between the creation of the lambda and its call (a module-level
+    # name bound once, or a local of the enclosing function bound once outside any loop) is that name: `lambda x, p=V: E`  ==  `lambda x: E[V/p]`.
+    # A loop variable bound this way (`lambda x, md=md: ..`) is the classic early binding and stays.
+    def visit_Lambda(self, node):
+        self.generic_visit(node)
+        a = node.args
+        if not a.defaults or a.vararg or a.kwarg or a.kwonlyargs or a.posonlyargs:
+            return node
+        npos = len(a.args) - len(a.defaults)
+        keep_args, keep_defaults, env = list(a.args[:npos]), [], {}
+        for prm, d in zip(a.args[npos:], a.defaults):
+            if isinstance(d, ast.Name) and self._stable_name(d.id) and not keep_defaults:
+                # (only trailing-compatible: parameters after a kept default must keep theirs too)
+                env[prm.arg] = d
+            else:
+                keep_args.append(prm)
+                keep_defaults.append(d)
+        if not env or any(v.id in {x.arg for x in keep_args} for v in env.values()):
+            return node
+
+        class Sub(ast.NodeTransformer):
+            def visit_Name(s, n):
+                if isinstance(n.ctx, ast.Load) and n.id in env:
+                    return ast.copy_location(ast.Name(id=env[n.id].id, ctx=ast.Load()), n)
+                return n
+        node.body = Sub().visit(node.body)
+        a.args, a.defaults = keep_args, keep_defaults
+        return node
+
+    def _stable_name(self, name: str) -> bool:
+        def stores(root):
+            n_plain = n_other = 0
+            for n in ast.walk(root):
+                if isinstance(n, ast.Name) and n.id == name and isinstance(n.ctx, (ast.Store, ast.Del)):
+                    n_other += 1
+                elif isinstance(n, ast.arg) and n.arg == name:
+                    n_other += 1
+                elif isinstance(n, (ast.FunctionDef, ast.AsyncFunctionDef, ast.ClassDef)) and n.name == name and n is not root:
+                    n_other += 1
+            return n_other
+        if self.fn_stack:
+            fn = self.fn_stack[0]
+            k = stores(fn)
+            if k > 1:
+                return False
+            if k == 1:
+                # bound once in the enclosing function: by a plain assignment that is a statement of the function body itself (not in a loop)
+                return any(isinstance(st, ast.Assign) and len(st.targets) == 1 and isinstance(st.targets[0], ast.Name) and st.targets[0].id == name
+                           for st in fn.body)
+        if self.module is None:
+            return False
+        top = 0
+        for st in self.module.body:
+            if isinstance(st, (ast.Assign, ast.AnnAssign, ast.AugAssign)):
+                tg = st.targets if isinstance(st, ast.Assign) else [st.target]
+                top += sum(1 for t in tg for n in ast.walk(t) if isinstance(n, ast.Name) and n.id == name and isinstance(n.ctx, ast.Store))
+            elif isinstance(st, (ast.FunctionDef, ast.AsyncFunctionDef, ast.ClassDef)) and st.name == name:
+                top += 1
+            elif isinstance(st, (ast.Import, ast.ImportFrom)):
+                top += sum(1 for x in st.names if (x.asname or x.name).split(".")[0] == name)
+        glob = any(isinstance(n, ast.Global) and name in n.names for n in ast.walk(self.module))
+        return top == 1 and not glob
 
     def _block(self, body, in_function=True):
         out = []
